@@ -445,6 +445,10 @@ func (x *Evaluator) evalU(v ssa.Value, e *env, c *evalCtx) Val {
 	case *ssa.TypeAssert:
 		return x.evalC(v.X, e, c)
 	case *ssa.MakeSlice:
+		if k, ok := v.Len.(*ssa.Const); ok && k.Value != nil && k.Value.ExactString() == "0" {
+			// make([]T, 0, n): the empty list; what is appended later is modelled by append
+			return ListV{IsFinite: true, Origin: "made-empty"}
+		}
 		return ListV{Elem: x.symbolic(v.Type().Underlying().(*types.Slice).Elem(), "makeslice"), Origin: "makeslice"}
 	}
 	return OpaqueV{fmt.Sprintf("unmodelled:%T", v)}
@@ -1380,6 +1384,30 @@ func (x *Evaluator) evalCompare(v *ssa.BinOp, e *env, c *evalCtx) Val {
 				case token.NEQ:
 					return boolConst(ls != rs)
 				}
+			}
+		}
+		// s != "" / s == "": the same question as len(s) > 0 / len(s) == 0
+		for _, side := range [2][2]Val{{l, r}, {r, l}} {
+			ot, isStr := side[1].(StrV)
+			if !isStr {
+				continue
+			}
+			if es, isLit := litOnly(ot.T); !isLit || es != "" {
+				continue
+			}
+			t := asTmpl(side[0])
+			ne, em := t.definitelyNonEmpty(), t.definitelyEmpty()
+			switch v.Op {
+			case token.NEQ:
+				if ne || em {
+					return boolConst(ne)
+				}
+				return BoolV{Desc: "len(" + t.String() + ")>0"}
+			case token.EQL:
+				if ne || em {
+					return boolConst(em)
+				}
+				return BoolV{Desc: "len(" + t.String() + ")==0"}
 			}
 		}
 		return BoolV{Desc: asTmpl(l).String() + v.Op.String() + asTmpl(r).String()}
